@@ -160,6 +160,8 @@ def stepMethod (d : Drv) (line : String) : Drv × Option String :=
   | .method name params st ctx prev0 lonly spec, "X" :: inToks =>
     let isLocal := prev0.head? == some "T"
     let prev := if isLocal then prev0.drop 1 else prev0
+    -- a late-position case stays one: every later step is tied through the implementation's own pre-state
+    let keep (l : List String) : List String := if isLocal then "T" :: l else l
     match inToks.mapM fzOf with
     | none => ({ d with cs := .skip }, some s!"NOTE case={d.caseId} non-finite input skipped")
     | some inp =>
@@ -170,7 +172,7 @@ def stepMethod (d : Drv) (line : String) : Drv × Option String :=
         -- keep only the per-step tie, resynchronised on the implementation's state
         let st' := (mLoad st leaves).getD st
         let d := { d with ops := d.ops + 1, lsteps := d.lsteps + (if ls.isSome then 1 else 0),
-                          cs := .method name params st' ctx leaves true spec }
+                          cs := .method name params st' ctx (keep leaves) true spec }
         match ls with
         | some (some m) => mismatch d m line "semantic"
         | _ => (d, none)
@@ -181,7 +183,7 @@ def stepMethod (d : Drv) (line : String) : Drv × Option String :=
       | .ok _, ["P"] => mismatch d "rust panicked, model does not" line "panic"
       | .ok (_, st'), ["?"] =>
         let (_, spec') := specStep name params spec (inp.map (·.q))
-        ({ d with cs := .method name params st' ctx leaves false spec' }, none)
+        ({ d with cs := .method name params st' ctx (keep leaves) false spec' }, none)
       | .ok (outs, st'), _ =>
         -- C12: dispersion measures are never negative (strict, on the implementation's own output)
         if ["stdev", "mad", "medad", "linvol", "tr"].contains name &&
@@ -199,7 +201,7 @@ def stepMethod (d : Drv) (line : String) : Drv × Option String :=
         let d := { d with ops := d.ops + 1, exempt := d.exempt + ex,
                           lsteps := d.lsteps + (if ls.isSome then 1 else 0),
                           specs := d.specs + (match sv with | .none => 0 | _ => 1),
-                          cs := .method name params st' ctx leaves false spec' }
+                          cs := .method name params st' ctx (keep leaves) false spec' }
         let bad2 := if leaves.isEmpty || isLocal then none
           else (cmpAll (cmpLeaf ctx (ctx.allow (stateScale ctx st'))) (mLeaves st') leaves "state").1
         match bad, bad2, ls with
@@ -212,10 +214,12 @@ def stepMethod (d : Drv) (line : String) : Drv × Option String :=
             (cmpAll (cmpLeaf ctx (ctx.allow (stateScale ctx st'))) (mLeavesAcc st') leaves "acc").1.isNone
           let cls := if isLocal then "numeric-drift" else if accOk then "residue-amplification" else "numeric-drift"
           let stR := (mLoad st' leaves).getD st'
-          mismatch d m line cls (.method name params stR ctx leaves true spec')
+          mismatch d m line cls (.method name params stR ctx (keep leaves) true spec')
         | some m, _, some (some m2) => mismatch d (m ++ " || " ++ m2) line "semantic"
-        | some m, _, none => mismatch d m line "unclassified"
-        | none, some m, some none => mismatch d m line "numeric-drift" (.method name params ((mLoad st' leaves).getD st') ctx leaves true spec')
+        -- no per-step tie for this kind: for a late-position case the fresh exact model primed with the last window
+        -- disagrees with the long-running instance, i.e. accumulated drift
+        | some m, _, none => mismatch d m line (if isLocal then "numeric-drift" else "unclassified")
+        | none, some m, some none => mismatch d m line "numeric-drift" (.method name params ((mLoad st' leaves).getD st') ctx (keep leaves) true spec')
         | none, some m, _ => mismatch d m line "semantic"
   | _, _ => (d, none)
 
